@@ -22,20 +22,23 @@ LEVEL_TEXT = ('All configurations below the qubit bound are built with the real 
 LEVEL_NOTE = ('Trusted: mc/gf2.py (self-tested), the size-family table of DESIGN §3. Not covered: sizes above the '
               'qubit bound / per-axis length bound stated in the evidence.')
 RULE = ('every (class, size, deformation) with size in the DESIGN §3 family, n <= bound and L <= l_max (at '
-        'least the 3 smallest family sizes per class); each configuration is distinct by construction and '
+        'least the 3 smallest family sizes per class), plus the thin lattices (one or two sides of length 1) of '
+        'the five open-boundary classes that accept them; each configuration is distinct by construction and '
         'non-trivial (n >= 1 qubits, at least one generator); every deformed configuration additionally as a '
         '"used object" (all derived data read, deformed by another offered name, read again, then deformed); one '
         'session per class builds several sizes/deformations one after the other in one process')
 ASSUMPTIONS = ['size family per class as fixed in DESIGN.md §3',
                'GF(2) reference algebra mc/gf2.py']
-BOUNDS = {'quick': {'max_n': 150, 'l_max_2d': 6, 'l_max_3d': 4},
-          'thorough': {'max_n': 1500, 'l_max_2d': 9, 'l_max_3d': 6}}
+BOUNDS = {'quick': {'max_n': 150, 'l_max_2d': 6, 'l_max_3d': 4, 'l_thin': 4},
+          'thorough': {'max_n': 1500, 'l_max_2d': 9, 'l_max_3d': 6, 'l_thin': 6}}
 
 
 def cases(tier, seed):
     b = BOUNDS[tier]
     out = F.configs(b['max_n'], F.CLASSES_2D, l_max=b['l_max_2d'], used=True)
     out += F.configs(b['max_n'], F.CLASSES_3D, l_max=b['l_max_3d'], used=True)
+    # thin lattices (a side of length 1) of the open-boundary classes: accepted by the constructors
+    out += F.thin_configs(b['max_n'], l_max=b['l_thin'], deformed=True)
     # sessions: objects of several sizes / deformations of one class built in ONE process
     sess = [{'part': 'session', 'cfgs': seq} for seq in session.interleave_by_size(out)]
     sess += [{'part': 'session', 'cfgs': seq} for seq in session.across_classes(out)]
